@@ -63,7 +63,6 @@ def run_cases(ctx, exe, cases, stream, batch=12, timeout=60):
     machine can make one run time out).  Returns {cid: impl_lines}."""
     if not cases:
         return {}
-    impl = run_pool(ctx, exe, cases, batch, timeout)
     mexe = ctx.models.get("ipclife")
     mcases = [c for c in cases if modelled(c[1])]
     model = vlib.run_batched(ctx, mexe, mcases, batch=400, timeout=120) if (mexe and mcases) else {}
@@ -81,41 +80,59 @@ def run_cases(ctx, exe, cases, stream, batch=12, timeout=60):
             return ("diff", vlib.first_diff(il, ml))
         return None
 
-    for cid, ops in cases:
-        cid = str(cid)
-        il = clean(impl[cid][0])
-        ml = clean(model[cid][0]) if cid in model else None
-        v = judge(ops, il, ml)
-        tries = 0
-        while v and tries < 2 and len(ofail) + len(diffs) < 2:     # two confirmed failures are enough
-            tries += 1
-            r = run_pool(ctx, exe, [("r", ops)], 1, timeout)
-            il2 = clean(r["r"][0])
-            v2 = judge(ops, il2, ml)
-            if not v2:
-                ctx.count("flaky-rerun-ok")
-                il, v = il2, None
+    # early abort: the stream is run in chunks (2, 8, 24, then 96 cases); as soon as two failures of the
+    # property oracle are confirmed the stream stops and the violation is reported at once (on a tree where,
+    # say, `destroyed` never fires every case costs 36 s of harness time-outs)
+    sizes = [2, 8, 24]
+    chunks, lo = [], 0
+    while lo < len(cases):
+        n = sizes.pop(0) if sizes else 96
+        chunks.append(cases[lo:lo + n])
+        lo += n
+    done = 0
+    for chunk in chunks:
+        impl = run_pool(ctx, exe, chunk, 1 if len(chunk) <= 8 else batch, timeout)
+        for cid, ops in chunk:
+            cid = str(cid)
+            il = clean(impl[cid][0])
+            ml = clean(model[cid][0]) if cid in model else None
+            v = judge(ops, il, ml)
+            tries = 0
+            while v and tries < (1 if v[0] == "oracle" and "TIMEOUT" in v[1] else 2) and len(ofail) + len(diffs) < 2:
+                tries += 1
+                r = run_pool(ctx, exe, [("r", ops)], 1, timeout)
+                il2 = clean(r["r"][0])
+                v2 = judge(ops, il2, ml)
+                if not v2:
+                    ctx.count("flaky-rerun-ok")
+                    il, v = il2, None
+                else:
+                    il, v = il2, v2
+            out[cid] = il
+            ctx.evaluations += 1
+            tg = crashgen.tags(ops, il)
+            for t in tg:
+                ctx.count("hit:" + t)
+            if tg:
+                ctx.nontrivial.add("\n".join(ops))
+            for l in impl[cid][0]:
+                if l.startswith("# faults:"):
+                    for kv in l.split()[2:]:
+                        k, _, n = kv.partition("=")
+                        ctx.count("fault-fired:" + k, int(n))
+            if v is None:
+                if ml is not None:
+                    ctx.traces_validated += 1
+            elif v[0] == "oracle":
+                ofail.append((cid, ops, v[1], il))
             else:
-                il, v = il2, v2
-        out[cid] = il
-        ctx.evaluations += 1
-        tg = crashgen.tags(ops, il)
-        for t in tg:
-            ctx.count("hit:" + t)
-        if tg:
-            ctx.nontrivial.add("\n".join(ops))
-        for l in impl[cid][0]:
-            if l.startswith("# faults:"):
-                for kv in l.split()[2:]:
-                    k, _, n = kv.partition("=")
-                    ctx.count("fault-fired:" + k, int(n))
-        if v is None:
-            if ml is not None:
-                ctx.traces_validated += 1
-        elif v[0] == "oracle":
-            ofail.append((cid, ops, v[1], il))
-        else:
-            diffs.append((cid, ops, v[1], il, ml))
+                diffs.append((cid, ops, v[1], il, ml))
+        done += len(chunk)
+        if len(ofail) >= 2 and done < len(cases):
+            ctx.count("stream-aborted-early:" + stream)
+            ctx.cov.setdefault("aborted_streams", []).append("%s after %d of %d cases" % (stream, done, len(cases)))
+            cases = cases[:done]
+            break
     if len(ctx.samples) < 6:
         c = cases[min(len(cases) - 1, 5)]
         ctx.samples.append({"stream": stream, "ops": c[1], "impl": out[str(c[0])][:14]})
